@@ -55,6 +55,12 @@ func findSys(name string) *Sys {
 		if f := s.WithFastPath(); f.Name() == name {
 			return f
 		}
+		if f := s.WithFastPath(); true {
+			f.Sweep = true
+			if f.Name() == name {
+				return f
+			}
+		}
 	}
 	return nil
 }
@@ -212,6 +218,20 @@ func TestExplore(t *testing.T) {
 			bundle.Systems = append(bundle.Systems, tab)
 			st.Chains++
 			st.ChainEvents += len(seqv)
+		}
+	}
+	// every IP identification value through the fast path, in two cached states
+	{
+		sw := all[0].WithFastPath()
+		sw.Sweep = true
+		evs := []core.Event{{"op": "DISC", "c": 1, "u": -1}, {"op": "REQSEL", "c": 1, "u": -1}, {"op": "DISC", "c": 2, "u": -1}, {"op": "REQSEL", "c": 2, "u": -1}, {"op": "REL", "c": 1, "u": -1}}
+		tab, pr := core.Chain(sw, sw.Name()+"#sweep", evs, false)
+		if pr != nil {
+			st.Panics = append(st.Panics, *pr)
+		} else {
+			bundle.Systems = append(bundle.Systems, tab)
+			st.Chains++
+			st.ChainEvents += len(evs)
 		}
 	}
 	if err := core.WriteJSON(out, "bundle.json", bundle); err != nil {
